@@ -74,6 +74,8 @@ Fixpoint spec_sw_loop (fuel : nat) (complete : bool) (tabs : alltables) (e : env
   | O => OutOfFuel
   | S fuel' =>
     if Nat.leb (String.length word) ci then Ok (complete || memN state acc, state, ci, log)
+    else if negb complete && match t_mstar T with Some stars => has_key state stars | None => false end
+    then Ok (true, state, ci, log)          (* a point that expects an undefined nonterminal accepts whatever is left *)
     else
       let rest := sdrop ci word in
       match (match assocN state (t_mlit T) with
